@@ -168,7 +168,10 @@ def gen_real(rng, mechs=("rdp", "gdp", "prv")):
     if rng.random() < 0.6:
         c["epochs"] = rng.choice([1, 1, 2, 3, 5, 10, 20])
     else:
-        c["steps"] = rng.randint(1, 3000)
+        # small step budgets too (one lost step then exceeds the bisection slack), with small L
+        c["steps"] = rng.randint(1, 3000) if rng.random() < 0.5 else rng.randint(1, 60)
+        if rng.random() < 0.4:
+            c["L"] = rng.randint(2, 12)
     return c
 
 
@@ -201,6 +204,11 @@ def calib_correspondence(ctx, cases, vsteps):
             hs = {h[2] for h in r["hist"]}
             hq = {f2h(h[1]) for h in r["hist"]}
             same = same and hs == {steps_model[i]} and hq == {f2h(1 / c["L"])}
+        elif c["mech"] != "synthetic" and "steps" in c and r["hist"]:
+            # `steps=` given: the model hands exactly that count (and the given rate) to the accountant
+            hs = {h[2] for h in r["hist"]}
+            hq = {f2h(h[1]) for h in r["hist"]}
+            same = same and hs == {c["steps"]} and hq == {f2h(1 / c["L"])}
         nontriv = len(r["queries"]) >= 3 or r["outcome"] != "ok"
         key = (c["mech"], c.get("family"), round(c["target"], 6) if c["target"] == c["target"] else "nan", c.get("L"), c.get("epochs"), c.get("steps"), c["fuel"],
                round(c["params"]["c"], 6) if "params" in c else None)
